@@ -2,7 +2,7 @@
 (***************************************************************************)
 (* C06: the public procedures as a table of signatures, and the set of     *)
 (* outcome classes a call may have.  A call is (procedure, arguments),     *)
-(* arguments drawn from a palette of 34 values of every kind with boundary *)
+(* arguments drawn from a palette of 38 values of every kind with boundary *)
 (* values.  The outcome of evaluating the call is one of                   *)
 (*     "ok" (a value), "err" (a reported error),                           *)
 (*     "panic", "abort", "timeout" (never allowed).                        *)
@@ -52,7 +52,11 @@ Palette == <<
   {"num", "int", "exact", "index"},    \* 31 100000 (an allocation size within the 10^6 bound of the property)
   {"bool"},                            \* 32 #t
   {"num", "int", "exact", "index"},    \* 33 zero left in rational representation by cancelling arithmetic: (- 1/2 1/2)
-  {"num", "int", "exact", "index"}     \* 34 zero left in bignum representation: (- (expt 2 64) (expt 2 64))
+  {"num", "int", "exact", "index"},    \* 34 zero left in bignum representation: (- (expt 2 64) (expt 2 64))
+  {"list", "pair"},                    \* 35 a quote form around a procedure: (list 'quote car)
+  {"list", "pair"},                    \* 36 a list holding a macro value, a continuation and a closure
+  {"vec"},                             \* 37 a vector holding a procedure
+  {"char"}                             \* 38 a numeric character outside ASCII (arabic-indic digit four)
 >>
 NPal == Len(Palette)
 
